@@ -63,9 +63,24 @@ func itoa(n int) string {
 	return string(b)
 }
 
-// Prove races the solvers on one query; first "unsat" wins. A "sat" answer from any solver ends
+// proveOnce races the solvers on one query; first "unsat" wins. A "sat" answer from any solver ends
 // the race as well (the obligation is refuted). Cached by query text.
+// Prove runs the solver race; a race that ends early without any verdict (a solver process that was
+// killed or failed to start under memory/CPU pressure) is repeated, so that load never turns into a
+// reported failure.
 func (s *Solver) Prove(query string, wantModel bool) SolveResult {
+	var r SolveResult
+	for attempt := 0; attempt < 3; attempt++ {
+		t0 := time.Now()
+		r = s.proveOnce(query, wantModel)
+		if r.Status != "unknown" || time.Since(t0) > s.timeout/2 {
+			break
+		}
+	}
+	return r
+}
+
+func (s *Solver) proveOnce(query string, wantModel bool) SolveResult {
 	k := s.key(query)
 	cf := filepath.Join(s.cacheDir, k[:2], k+".json")
 	if data, err := os.ReadFile(cf); err == nil {
